@@ -19,7 +19,8 @@ CODE = ["yowsup/layers/axolotl/layer_send.py:send/receive/processPlaintextNodeAn
         "yowsup/layers/axolotl/layer_base.py:getKeysFor", "yowsup/axolotl/manager.py:_generate_random_padding/_unpad (real); encrypt/decrypt_*/group_* + yowsup/axolotl/store/sqlite/*.py (real, restart case)",
         "yowsup/layers/protocol_messages/layer.py:recvMessageStanza", "yowsup/layers/protocol_media/layer.py:recvMessageStanza",
         "axolotl/protocolentities/message_encrypted.py, enc.py, receipt_outgoing_retry.py, receipt_incoming_retry.py"]
-BOUNDS = {"quick": "[+ relayed stanza naming its author; 1-3 parked messages] " 
+BOUNDS = {"quick": "[+ retry original in {text, image, location}; own registration id in {4242, 0x50a759b, 0x7fffffff, 1, 0x10000000}] " 
+                   "[+ relayed stanza naming its author; 1-3 parked messages] " 
                    "[+ content clause: payload mapping of text / extended text / image / location / contact (all / no optional fields)] " 
                    "[+ first group message with sessions to all members but one] " 
                    "one step per run from a solver-chosen pre-state: 1:1 and group sends (session present / absent, sender key present), every decrypt outcome x envelope type, retry receipt, "
